@@ -10,6 +10,7 @@
  *   det    <op> <seed>            same stream and clock twice -> SAME bytes=<n> digest=<sm3> | DIFFERENT
  *   fresh  <op> <seed1> <seed2>   different streams -> DISTINCT | SAME-EPHEMERAL eph=<hex> | NOEPH
  *   rbytes / rr / pooltrace / (ur in ur_harness.c)   gateway, rejection sampling and nonce pool, line-compared with the Coq models
+ *   bval   <op> <seed> <zero|n|nplus|max|one|nminus1|nminus2>   boundary value as the first 32-byte draw -> OK | NOT-REDRAWN | BROKEN
  *   eint   <op> <seed> <i> <EINTR|EAGAIN|EIO|ENOSYS|untouched> <k>
  *                                 the next k attempts at draw i fail with that errno (destination poisoned), then the
  *                                 source works again and serves the same bytes as in the healthy run
@@ -220,7 +221,7 @@ static int run_once(const sysop_t *op, uint64_t stream_seed, long failat, obuf_t
 static int cmp32(const void *a, const void *b) { return memcmp(a, b, 32); }
 
 /* ---- one context, one stream, a failure in the middle, then the source is healthy again ---------------- */
-typedef struct { SM2_SIGN_CTX sign; SM2_ENC_CTX enc; } ctxs_t;
+typedef struct { SM2_SIGN_CTX sign; SM2_ENC_CTX enc; SM9_SIGN_CTX s9; } ctxs_t;
 static int ctx_step(const char *kind, const sysop_t *op, ctxs_t *x, obuf_t *o, uint8_t eph[32]) {
 	/* one operation on the persistent context; eph = digest of its ephemeral public value; 1 on success */
 	SM3_CTX h3; int rc;
@@ -232,6 +233,25 @@ static int ctx_step(const char *kind, const sysop_t *op, ctxs_t *x, obuf_t *o, u
 		{ SM2_VERIFY_CTX vc; if (sm2_verify_init(&vc, &C->sm2, SM2_DEFAULT_ID, SM2_DEFAULT_ID_LENGTH) != 1 || sm2_verify_update(&vc, C->msg, C->msglen) != 1
 			|| sm2_verify_finish(&vc, sig, sl) != 1) return -2; }
 		sm3_init(&h3); sm3_update(&h3, s.r, 32); sm3_finish(&h3, eph);          /* same message: equal nonce <=> equal r */
+		return 1;
+	}
+	if (!strcmp(kind, "sm2_sign_ctx_fixlen")) {
+		/* the fixed-length variant on the same context type (SM2_signature_typical_size = 71) */
+		uint8_t sig[SM2_MAX_SIGNATURE_SIZE]; SM2_SIGNATURE s; const uint8_t *p = sig; size_t l = 71;
+		if (sm2_sign_reset(&x->sign) != 1 || sm2_sign_update(&x->sign, C->msg, C->msglen) != 1) return -9;
+		if (sm2_sign_finish_fixlen(&x->sign, 71, sig) != 1) return -1;
+		if (sm2_signature_from_der(&s, &p, &l) != 1) return -2;
+		{ SM2_VERIFY_CTX vc; if (sm2_verify_init(&vc, &C->sm2, SM2_DEFAULT_ID, SM2_DEFAULT_ID_LENGTH) != 1 || sm2_verify_update(&vc, C->msg, C->msglen) != 1
+			|| sm2_verify_finish(&vc, sig, 71) != 1) return -2; }
+		sm3_init(&h3); sm3_update(&h3, s.r, 32); sm3_finish(&h3, eph);
+		return 1;
+	}
+	if (!strcmp(kind, "sm9_sign_ctx")) {
+		uint8_t sig[SM9_SIGNATURE_SIZE + 16]; size_t sl = 0;
+		if (prepare9(C) != 1) return -9;
+		if (sm9_sign_init(&x->s9) != 1 || sm9_sign_update(&x->s9, C->msg, C->msglen) != 1) return -9;
+		if (sm9_sign_finish(&x->s9, &C->s9sk, sig, &sl) != 1) return -1;
+		sm3_init(&h3); sm3_update(&h3, sig, sl); sm3_finish(&h3, eph);
 		return 1;
 	}
 	if (!strcmp(kind, "sm2_enc_ctx")) {
@@ -251,13 +271,13 @@ static void do_recover(char **w) {
 	const char *kind = w[1]; const sysop_t *op = find_op2(kind); uint64_t seed = strtoull(w[2], NULL, 10);
 	int pre = atoi(w[3]), post = atoi(w[5]), i, j, n = 0, attempt; long failrel = atol(w[4]);
 	ctxs_t *x = malloc(sizeof *x); obuf_t o; uint8_t (*eph)[32]; int rc;
-	int is_ctx = !strcmp(kind, "sm2_sign_ctx") || !strcmp(kind, "sm2_enc_ctx");
+	int is_ctx = !strcmp(kind, "sm2_sign_ctx") || !strcmp(kind, "sm2_enc_ctx") || !strcmp(kind, "sm2_sign_ctx_fixlen") || !strcmp(kind, "sm9_sign_ctx");
 	if ((!is_ctx && !op) || pre < 0 || post < 0 || pre + post > 4000) { printf("ERR usage"); free(x); return; }
 	prep(seed >> 8); ob_init(&o);
 	if (op && op->heavy) prepare9(C);
 	eph = malloc((size_t)(pre + post + 2) * 32);
 	ent_seed(seed, -1); ent_clock(1700000000);
-	if (!strcmp(kind, "sm2_sign_ctx") && sm2_sign_init(&x->sign, &C->sm2, SM2_DEFAULT_ID, SM2_DEFAULT_ID_LENGTH) != 1) { printf("ERR init"); goto done; }
+	if (!strncmp(kind, "sm2_sign_ctx", 12) && sm2_sign_init(&x->sign, &C->sm2, SM2_DEFAULT_ID, SM2_DEFAULT_ID_LENGTH) != 1) { printf("ERR init"); goto done; }
 	if (!strcmp(kind, "sm2_enc_ctx") && sm2_encrypt_init(&x->enc) != 1) { printf("ERR init"); goto done; }
 	for (i = 0; i < pre; i++) { rc = ctx_step(kind, op, x, &o, eph[n]); if (rc != 1) { printf("BROKEN at=%d rc=%d phase=before", i, rc); goto done; } n++; }
 	ent.fail_at = ent.draws + failrel;                                     /* the failing draw, relative to here */
@@ -342,7 +362,34 @@ static void handle(size_t nw, char **w) {
 	seed = strtoull(w[2], NULL, 10);
 	prep(seed >> 8);                                           /* 256 stream seeds share one key set */
 	ob_init(&o);
-	if (!strcmp(w[0], "vals") && nw == 3) {
+	if (!strcmp(w[0], "bval") && nw == 4) {
+		/* boundary values of the first 32-byte draw: zero / n / n+1 / 2^256-1 must be re-drawn (the outcome equals the healthy run on the
+		 * stream without that draw, with one more draw); 1 / n-1 / n-2 are ordinary values (the operation succeeds and its output verifies) */
+		uint8_t v[32]; uint64_t nn[4]; obuf_t o2; long d2; size_t b2; int rc2, redraw; uint64_t S = 0xb0a7 + seed;
+		int sm9 = !strncmp(w[1], "sm9", 3);
+		memcpy(nn, sm9 ? (const void *)sm9_z256_order() : (const void *)sm2_z256_order(), 32);
+		memset(v, 0, 32); redraw = 1;
+		if (!strcmp(w[3], "zero")) {}
+		else if (!strcmp(w[3], "n")) memcpy(v, nn, 32);
+		else if (!strcmp(w[3], "nplus")) { nn[0] += 1; memcpy(v, nn, 32); }
+		else if (!strcmp(w[3], "max")) memset(v, 0xff, 32);
+		else if (!strcmp(w[3], "one")) { v[0] = 1; redraw = 0; }
+		else if (!strcmp(w[3], "nminus2")) { nn[0] -= 2; memcpy(v, nn, 32); redraw = 0; }
+		else if (!strcmp(w[3], "nminus1")) { nn[0] -= 1; memcpy(v, nn, 32); redraw = -1; }   /* rejected by key generation (range n-1), accepted as a nonce */
+		else { printf("ERR kind"); ob_free(&o); return; }
+		ob_init(&o2);
+		if (op->heavy) prepare9(C);
+		ent_script(NULL, 0, -1); ent.sm = S; ent_clock(1700000000);               /* reference: the stream without the special draw */
+		rc = op->run(C, &o); draws = ent.draws; bytes = ent.total; C->nsec = 0;
+		ent_script(v, 32, -1); ent.sm = S; ent_clock(1700000000);
+		rc2 = op->run(C, &o2); d2 = ent.draws; b2 = ent.total;
+		if (rc != 1) printf("ERR reference rc=%d", rc);
+		else if (rc2 != 1) printf("BROKEN rc=%d draws=%ld (a boundary value of the draw makes the operation fail or emit invalid output)", rc2, d2);
+		else if (redraw == 1 && !(d2 == draws + 1 && o2.n == o.n && !memcmp(o.p, o2.p, o.n))) printf("NOT-REDRAWN draws=%ld/%ld same-output=%d", d2, draws, o2.n == o.n && !memcmp(o.p, o2.p, o.n));
+		else printf("OK rc=1 draws=%ld/%ld %s", d2, draws, redraw == 1 ? "redrawn" : (d2 == draws + 1 ? "redrawn" : "accepted"));
+		(void)b2; (void)bytes;
+		ob_free(&o2);
+	} else if (!strcmp(w[0], "vals") && nw == 3) {
 		/* the 32-byte values the operation drew (replayed from the stream): the Coq model of the rejection sampling is fed the
 		 * same bytes and must consume exactly as many */
 		long k, lim; size_t lens[64]; uint8_t v[256];
